@@ -94,6 +94,12 @@ def check(case):
     if kind == "exact":
         n, d = case["n"], case["d"]
         ref = F(n, d)
+        try:
+            fl = float(ref)
+            if F(fl) == ref:
+                Beat(fl)  # the float of the very same value is rounded first
+        except OverflowError:
+            pass
         for how, b in (("pair", Beat(n, d)), ("fraction", Beat(ref)), ("beat", Beat(Beat(n, d)))):
             need(b == ref and is_beat(b), f"Beat from {how} {n}/{d} gave {b!r} ({type(b).__name__})")
             need(b.numerator == ref.numerator and b.denominator == ref.denominator, f"{how}: not normalised {b!r}")
@@ -116,8 +122,13 @@ def check(case):
                 except ZeroDivisionError:
                     continue
                 raise Violation(f"{name} by zero did not raise: {l!r} {r!r}")
-            got = op(l, r)
             exp = op(F(lr), F(rr))
+            try:
+                if F(float(exp)) == exp:
+                    Beat(float(exp))  # a float equal to the exact result has been rounded earlier in the process
+            except OverflowError:
+                pass
+            got = op(l, r)
             evals += 1
             need(got == exp, f"{name}({l!r}, {r!r}) = {got!r}, exact {exp}")
             need(is_beat(got), f"{name}({l!r}, {r!r}) has type {type(got).__name__}, not Beat")
@@ -306,7 +317,7 @@ def _grid_iter(shard, nshards):
 
 
 frac = st.tuples(st.integers(-(10**5), 10**5), st.integers(1, 1000))
-small_frac = st.tuples(st.integers(-200, 200), st.sampled_from([1, 2, 3, 4, 6, 8, 12, 16, 24, 48, 7, 96, 192, 1000]))
+small_frac = st.tuples(st.integers(-200, 200), st.sampled_from([1, 2, 3, 4, 6, 8, 12, 16, 24, 48, 7, 96, 192, 1000, 32, 64, 64, 128, 256]))
 operand = st.one_of(
     st.builds(lambda v: {"t": "frac", "v": list(v)}, st.one_of(frac, small_frac)),
     st.builds(lambda v: {"t": "int", "v": v}, st.integers(-50, 50)),
@@ -334,6 +345,15 @@ def s_inexact(draw):
         return {"kind": "inexact", "form": "float", "v": repr(x)}
     if mode == 1:
         return {"kind": "inexact", "form": draw(st.sampled_from(["decimal", "str"])), "v": draw(_dec_str(draw(st.integers(0, 6))))}
+    if mode == 2:
+        # the double nearest to a midpoint between two ticks, (2k+1)/96: slightly off the midpoint, one neighbour is nearer
+        k = draw(st.integers(-(10**6), 10**6))
+        x = float(F(2 * k + 1, 96))
+        step = draw(st.sampled_from([0, 0, 1, -1, 2, -2]))
+        import math
+        for _ in range(abs(step)):
+            x = math.nextafter(x, math.inf if step > 0 else -math.inf)
+        return {"kind": "inexact", "form": "float", "v": repr(x)}
     # constructed ties m/32 (m odd) and near ties
     m = draw(st.integers(-64000, 64000)) * 2 + 1
     tie = F(m, 32)
@@ -376,9 +396,11 @@ def s_events(draw):
 def parts(tier):
     q = tier == "quick"
     return [
-        {"name": "tick-grid", "kind": "enum", "iter": _grid_iter, "exhaustive": True},
+        # exact constructions and arithmetic run first in every shard process: they interleave float roundings with exact
+        # constructions of the same values while any process-wide memo is still empty (the grid alone makes 12000 float calls)
         {"name": "exact", "kind": "hypothesis", "strategy": s_exact, "examples": 4000 if q else 16 * 20000},
         {"name": "arith", "kind": "hypothesis", "strategy": s_arith, "examples": 8000 if q else 16 * 40000},
+        {"name": "tick-grid", "kind": "enum", "iter": _grid_iter, "exhaustive": True},
         {"name": "inexact", "kind": "hypothesis", "strategy": s_inexact, "examples": 8000 if q else 16 * 40000},
         {"name": "bigtick", "kind": "hypothesis", "strategy": s_bigtick, "examples": 4000 if q else 16 * 20000},
         {"name": "events", "kind": "hypothesis", "strategy": s_events, "examples": 3000 if q else 16 * 10000},
